@@ -40,7 +40,8 @@ RULE = ("case kinds by index: (every 64th) gate sweep = each of H, X, Y, Z, CX, 
         "random pure circuit on 0-3 qubits, depth <=8, over the supported "
         "set incl. kets/bras and scalars, translated, interpreted, compared "
         "up to one factor, then the dagger law on the translated diagram.  "
-        "Non-trivial = >=3 boxes or a sweep; distinct by the written-out spec.")
+        "Non-trivial = >=3 boxes or a sweep; distinct by the written-out spec."
+        "  Also: generators obtained as daggers of bare spiders; [::-1] and the double dagger.")
 SIZES = {"quick": (16, 192), "thorough": (16, 4800)}
 TIMEOUT = {"quick": 600, "thorough": 5400}
 COVER = {
